@@ -12,6 +12,8 @@ CONSTANTS
   Modes = {"fresh", "catchup"}
   Kinds = {"closed", "lost", "won", "other"}
   Lax = FALSE
+  ErrKinds = {1, 2, 3, 4}
+  NfKinds = {1}
   TimeoutCfgs = {TRUE, FALSE}
 INVARIANTS TypeOK C13Bid C13Released WonIsOurs Pipeline
 
